@@ -22,8 +22,8 @@ CHECKS = {
         technique=DST + "seeded scheduler preempting between statements of the accept loop / Shutdown / teardown, life-cycle history oracle with bounded liveness at quiescence",
         ref="DESIGN.md §4 C14"),
     "C15": dict(
-        text="Same histories with idle timeouts from 1 us to 24 h on the simulated clock (and timeout 0 as control). Oracles are exact because running code takes no simulated time: timeout return not before last-new-connection + timeout, not after last-connection-end + timeout, never while an obliged client still has to be served, always eventually when idle; never a self-stop without timeout; listener closed at the timeout return, later dials refused, re-serve works. One run in 24: the serving context ends under open connections and the idle timeout then stops the service.",
-        technique=DST + "simulated clock with accept-deadline expiries as kernel events, ties decided by the seeded scheduler, exact timing oracle",
+        text="Same histories with idle timeouts from 1 us to 24 h on the simulated clock (and timeout 0 as control). Oracles are exact because running code takes no simulated time: timeout return not before last-new-connection + timeout, not after last-connection-end + timeout, never while an obliged client still has to be served, always eventually when idle; never a self-stop without timeout; listener closed at the timeout return, later dials refused, re-serve works. One run in 24: the serving context ends under open connections and the idle timeout then stops the service. A second leg, NOT simulated, serves with an idle timeout on the real listener types (unix, abstract unix, tcp): whether the accept deadline works there at all has no seam.",
+        technique=DST + "simulated clock with accept-deadline expiries as kernel events, ties decided by the seeded scheduler, exact timing oracle; plus a real-listener leg (not simulated) with ordering-based and very wide wall-clock oracles",
         ref="DESIGN.md §4 C15"),
     "C16": dict(
         text="The life-cycle (C14/C15 histories plus RegisterInterface / GetListener attempts concurrent with serving), protocol (C01/C10) and cancellation workloads run in a -race build. The scheduler's handoffs are hidden from the detector (RaceDisable around park/wake, unobserved accesses to kernel-task shared memory, per-object tokens mirroring fdMutex), so it sees exactly the library's own synchronisation over a serialised, replayable schedule; TSan's duplicate suppression is switched off so every run reports its own races. A report counts if an access stack's first non-stdlib frame is library code; reports between harness frames only exit 2.",
